@@ -358,7 +358,11 @@ func c05Comparisons(c *Ctx, rule string) {
 			case bad != "":
 				c.Fail(rule, key, cc.Pos(), "the %s arm %s, expected %s: the operator written in the query is evaluated as another one for that operand type", cst.Name(), bad, want)
 			case n == 0:
-				c.Fail(rule, key, cc.Pos(), "the %s arm returns no comparison of the two operands", cst.Name())
+				if hs := writtenOutHelpers(f); len(hs) > 0 {
+					c.Undecided(rule, key, "the %s arm returns no direct comparison of the two operands, and the function now computes through helper code the rules have never seen (%s, written out at its call sites): whether the value it tests is the comparison of the operands is not decided", cst.Name(), strings.Join(hs, ", "))
+				} else {
+					c.Fail(rule, key, cc.Pos(), "the %s arm returns no comparison of the two operands", cst.Name())
+				}
 			default:
 				c.OK(rule, key, cc.Pos(), n, "%d comparisons, all `left %s right`", n, want)
 			}
